@@ -314,6 +314,41 @@ def bound_method_alias(s):
 
 
 @harmless
+def local_closure(s):
+    s = sub(s, "        self._start_mocking(context)\n", "        self._start_mocking(context)\n\n"
+            "        def finish():\n            self._stop_mocking(context)\n\n")
+    a = s.index("        try:\n            # TODO: Support CaitNode")
+    b = s.index("    def run(self, code=None")
+    return s[:a] + s[a:b].replace("self._stop_mocking(context)", "finish()") + s[b:]
+
+
+@harmless
+def local_lambda(s):
+    s = sub(s, "        self._start_mocking(context)\n", "        self._start_mocking(context)\n"
+            "        record = lambda failure: self._capture_exception(failure, sys.exc_info(), code, filename)\n")
+    s = sub(s, """            self._capture_exception(user_exception, sys.exc_info(),
+                                    code, filename)
+""", "            record(user_exception)\n")
+    return s
+
+
+@harmless
+def class_qualified_call(s):
+    return sub(s, OLD_ELSE, "        else:\n            Sandbox._stop_mocking(self, context)\n")
+
+
+@harmless
+def clear_exception_written_out(s):
+    return sub(s, "        self.clear_exception()\n\n        context = SandboxContext(",
+               "        self.exception = None\n        self.feedback = None\n\n        context = SandboxContext(")
+
+
+@broken
+def exception_slot_overwritten_after_capture(s):
+    return sub(s, OLD_ELSE, OLD_ELSE + "        self.exception = None\n")
+
+
+@harmless
 def unreadable_call_measured(s):
     # the reader does not follow getattr(): the statement is MEASURED (it logs stopMocking whenever it runs)
     return merged("except (Exception, SystemExit) as e:", '''            getattr(self, "_stop_" + "mocking")(context)
